@@ -1066,13 +1066,20 @@ func genATPlanTweaked(seed uint64, tier, mode string, tweak func(g *simkit.Gen, 
 	p.Opts.Trouble = g.Prob(0.3)
 	p.Opts.MultiRow = g.Prob(0.4)
 	p.Opts.Upsert = g.Prob(0.3)
-	p.Opts.MultiUpsert = g.Prob(0.15)
+	p.Opts.MultiUpsert = g.Prob(0.6)
 	p.Opts.ShuffleCols = g.Prob(0.4)
 	p.Opts.OrderLimit = g.Prob(0.2)
 	if g.Prob(0.5) {
 		p.Opts.WhereForms = pickSome(g, []string{"pk", "in", "between", "and", "or", "paren", "nonpk"}, 1)
 	}
 	p.Opts.Params = g.Prob(0.8)
+	if g.Prob(0.06) {
+		// preset: undo logs dominated by one high-entropy value, under a
+		// compressor (a block compressor refuses what it cannot shrink)
+		p.Opts.Types = []string{"blob", "int"}
+		p.Opts.Trouble, p.Opts.BigBlob = true, true
+		p.Cfg.Compress = simkit.Pick(g, []string{"Lz4", "Lz4", "Zstd", "Gzip"})
+	}
 	if tweak != nil {
 		tweak(g, &p.Opts)
 	}
